@@ -3,7 +3,8 @@
 AnalysisHost::{apply_change, request_cancellation, snapshot} and Analysis::{with_db + every public query method} are
 executed under-constrained.  Obligations on every path:  O1 apply_change requests cancellation (a synthetic write on the
 salsa runtime) BEFORE it applies the inputs;  O2 snapshot() goes through salsa's ParallelDatabase::snapshot;  O3 every
-public query runs its database code inside Cancelled::catch (via with_db) and nowhere else;  O4 no other function of the
+public query runs its database code inside Cancelled::catch (via with_db) and nowhere else;  O5 when Cancelled::catch answers
+Err(Cancelled) - the solver chooses per call - the public method returns Err(Cancelled), never a regular answer;  O4 no other function of the
 crate intercepts unwinding (MIR scan).
 Interleavings are NOT explored."""
 import os, re, json
@@ -25,10 +26,18 @@ class ObligationSpec:
     def make_interp(self):
         it = W.interp('ide', uc=True)
         it.allow = ALLOW
-        self.inside = [0]
+        self.inside = [0]; self.ncatch = [0]; self.cancelled = [0]
 
         def catch(it_, c, a):
-            # Cancelled::catch(f): run f; record that we are inside the guard
+            # Cancelled::catch(f): run f; record that we are inside the guard.  O5: a pending change may cancel the closure at any
+            # point - the solver chooses per call whether this one is answered Err(Cancelled) instead
+            import z3
+            self.ncatch[0] += 1
+            cv = z3.Bool('cancelled%d' % self.ncatch[0])
+            if self.fn not in ('apply_change', 'request_cancellation', 'snapshot') and it_.choose([(z3.Not(cv), False), (cv, True)]):
+                self.cancelled[0] += 1
+                it_.trace.append(('Cancelled::catch', [], None, tuple(it_.stack)))
+                return err(Agg('struct', 'Cancelled', None, []))
             self.inside[0] += 1
             try:
                 r = it_.call_closure(a[0], [])
@@ -44,7 +53,7 @@ class ObligationSpec:
         return it
 
     def run_path(self, it):
-        self.calls = []; self.inside[0] = 0
+        self.calls = []; self.inside[0] = 0; self.ncatch[0] = 0; self.cancelled[0] = 0
         body = [b for n, b in W.crates['ide'].items() if re.search(r'^ide::<impl at [^>]*>::%s$' % self.fn, n)]
         if len(body) > 1:
             # same method name on AnalysisHost and on another type of the module: take the one whose self type fits
@@ -54,9 +63,19 @@ class ObligationSpec:
             raise Unsupported('function %s not found (%d)' % (self.fn, len(body)))
         body = body[0]
         args = [RefV([LazyV('self')], 0)] + [LazyV('arg%d' % i) for i in range(len(body.args) - 1)]
-        it.run_body(body, args)
+        ret = it.run_body(body, args)
         names = [c[0] for c in self.calls]
         bad = []
+        if self.cancelled[0]:
+            # O5: the query was cancelled: the method must answer Err(Cancelled), not wrap the cancellation into a regular answer
+            rv = models.deref(ret)
+            if not (isinstance(rv, Agg) and rv.kind == 'enum' and rv.variant == 'Err'):
+                shown = ('%s(%s..)' % (rv.variant, getattr(models.deref(rv.fields[0]), 'variant', '')) if isinstance(rv, Agg) and rv.kind == 'enum' and rv.fields else repr(rv)[:60])
+                bad.append('O5: Analysis::%s answers %s when its query is cancelled (Cancelled::catch returned Err(Cancelled)): the cancellation is delivered as a regular answer instead of Err(Cancelled)' % (self.fn, shown))
+            rec = {'cls': 'cancelled', 'ok': True, 'sample': {'function': self.fn, 'cancelled_catches': self.cancelled[0]}}
+            if bad:
+                rec.update({'cls': 'violation', 'ok': False, 'why': ['C12: ' + b for b in bad], 'cex': {'function': self.fn, 'calls': names[:12]}})
+            return rec
         if self.fn == 'apply_change':
             sw = [i for i, n in enumerate(names) if n.endswith('synthetic_write')]
             ap = [i for i, n in enumerate(names) if n.endswith('Change::apply')]
@@ -72,7 +91,10 @@ class ObligationSpec:
                 bad.append('O2: AnalysisHost::snapshot does not obtain its database through salsa ParallelDatabase::snapshot')
         else:
             # a public query: every call into the crate's query code must happen inside Cancelled::catch
-            outside = [c for c in self.calls if c[1] == 0 and re.match(r'^(ide::|def::|ty::|diagnostic)', c[0]) and not re.search(r'(Analysis|<impl at [^>]*>)::(with_db|%s)\b' % self.fn, c[0])]
+            # (another public query method is itself subject to O3 / O5: calling it is not "database code outside the guard")
+            pub = '|'.join(public_queries())
+            outside = [c for c in self.calls if c[1] == 0 and re.match(r'^(ide::|def::|ty::|diagnostic)', c[0]) and not re.search(r'(Analysis|<impl at [^>]*>)::(with_db|%s)\b' % self.fn, c[0])
+                       and not re.match(r'^ide::Analysis::(%s)$' % pub, c[0])]
             inside = [c for c in self.calls if c[1] > 0]
             if outside:
                 bad.append('O3: Analysis::%s calls %s outside Cancelled::catch - a cancelled query unwinds into the caller (panic) instead of Err(Cancelled)' % (self.fn, outside[0][0]))
@@ -107,7 +129,7 @@ def main(tier, seed):
     try:
         for fn in fns:
             res, complete = explore.explore(factory, (fn,), jobs=1)
-            chk.add_run('%s (under-constrained)' % fn, res, complete, {'function': fn}, nontrivial_classes=lambda c: c == 'ok')
+            chk.add_run('%s (under-constrained)' % fn, res, complete, {'function': fn}, nontrivial_classes=lambda c: c in ('ok', 'cancelled'))
             for v in res.violations:
                 nviol += 1
                 chk.violation('obligation:' + fn, 'obligation', '%s; calls on the path: %s' % (v['why'][0], v['cex']['calls'][:6]), v['cex'], confirmed=True)
@@ -164,7 +186,7 @@ def main(tier, seed):
     chk.assumptions += ['native layer (executed with real threads and real timing, not a solver verdict): for the 64 one-coordinate changes of the C11 workspace template and 8 delays between 0 and 15 ms, three (thorough: six, four rounds) snapshot threads ask every public query while the change is applied: '
                         'every observed answer is the pre-change answer or a cancellation, apply_change returns within %d ms, a snapshot taken afterwards answers like a fresh analysis' % isok.APPLY_BOUND_MS,
                         'obligation check: necessary conditions of the property, not the schedule-quantified statement; salsa\'s runtime and thread interleavings are not modelled',
-                        'under-constrained execution: callees outside crates/ide/src/ide/mod.rs return unconstrained values; Cancelled::catch runs its closure',
+                        'under-constrained execution: callees outside crates/ide/src/ide/mod.rs return unconstrained values; Cancelled::catch runs its closure or, chosen by the solver per call, returns Err(Cancelled) (O5: then the public method must return Err)',
                         'a violated obligation is a deterministic fact about the code path (reported without a native race reproduction)']
     chk.trusted += ['rustc MIR', 'mirsym interpreter (under-constrained mode)']
     expl = ('Under-constrained symbolic execution of the real MIR of AnalysisHost::{apply_change, request_cancellation, snapshot} and of all %d public Analysis queries; obligations O1-O3 asserted on every path. '
